@@ -247,7 +247,8 @@ func (t *TracksReader) MultiPlay(trackouts map[int]drivers.Out) error {
 		},
 	)
 
-	sort.Sort(pl)
+	// stable: events of one track that share a time keep their file order
+	sort.Stable(pl)
 
 	var last time.Duration = 0
 
